@@ -194,6 +194,46 @@ def check_existing_targets():
             b.close()
 
 
+COMMAND_SETTINGS = {
+    'key_only_mentioned_in_a_comment': SETTINGS + '# merchants_file: config/merchants.rules   <- enable after upgrading\n',
+    'longer_key_name': SETTINGS + 'old_merchants_file: config/old.rules\n',
+    'key_with_empty_value': SETTINGS + 'merchants_file:\n',
+    'key_inside_a_quoted_value': SETTINGS + 'title: "see merchants_file: in the docs"\n',
+    'plain': SETTINGS,
+}
+
+
+def check_completed_command():
+    """the whole command (tally up --migrate), no faults: settings texts that merely mention the key, and a budget run with --settings <other file>;
+    the budget classifies as before straight after the command and after running it again"""
+    for variant, text in sorted(COMMAND_SETTINGS.items()):
+        for settings_name in ('settings.yaml', 'settings-2024.yaml'):
+            for default_also in ((False,) if settings_name == 'settings.yaml' else (False, True)):
+                b = make_budget(text)
+                try:
+                    if settings_name != 'settings.yaml':
+                        b.write('config/' + settings_name, text)
+                        if not default_also:
+                            os.remove(os.path.join(b.config, 'settings.yaml'))
+
+                    def cls(migrate=False):
+                        out, err, code = run_cmd(cmd_run, **up_args(b, format='json', migrate=migrate, quiet=True, settings=settings_name))
+                        doc = last_json(out)
+                        return None if doc is None else sorted((m['name'], m['category']) for m in doc['merchants'])
+                    want = cls()
+                    O.case(('command', variant, settings_name, default_also))
+                    first = cls(migrate=True)
+                    after = cls()
+                    again = cls(migrate=True)
+                    if not (want == first == after == again):
+                        O.fail('C15.csv_migration.completed.rules_not_in_force', {'function': 'tally up --migrate', 'command_settings': variant, 'settings_file': settings_name,
+                                                                                  'config_settings_yaml_also_present': default_also},
+                               want, {'during_migrating_run': first, 'next_run': after, 'after_rerun_with_migrate': again, 'config': sorted(os.listdir(b.config))},
+                               'tally up [--settings F] --migrate, then tally up, then the same command again')
+                finally:
+                    b.close()
+
+
 def check_layout_migration():
     k = 0
     while k < 10:
@@ -245,6 +285,8 @@ def main():
     if O.witness:
         if 'existing' in O.witness:
             check_existing_targets()
+        elif 'command_settings' in O.witness:
+            check_completed_command()
         elif O.witness.get('function') == 'migrate_v0_to_v1':
             check_layout_migration()
         else:
@@ -253,6 +295,7 @@ def main():
     for variant in SETTINGS_VARIANTS:
         check_csv_migration(variant)
     check_existing_targets()
+    check_completed_command()
     check_layout_migration()
     O.sample({'function': '_migrate_csv_to_rules', 'event': 'crash', 'primitive_index': 3})
     O.finish()
